@@ -297,6 +297,18 @@ MUTATIONS += [
     dict(id="C03-rewrite-forget-before-save", prop="C03", file="crates/core/src/commands/rewrite.rs", old="        repo.save_snapshots(snapshots.clone())?;\n        if opts.forget {\n            let old_snap_ids: Vec<_> = snapshots.iter().map(|sn| sn.id).collect();\n            repo.delete_snapshots(&old_snap_ids)?;\n        }", new="        if opts.forget {\n            let old_snap_ids: Vec<_> = snapshots.iter().map(|sn| sn.id).collect();\n            repo.delete_snapshots(&old_snap_ids)?;\n        }\n        repo.save_snapshots(snapshots.clone())?;"),
 ]
 
+# ---- C12 repair / rewrite kernels
+RWTF = "crates/core/src/blob/tree/rewrite.rs"
+MODF = "crates/core/src/blob/tree/modify.rs"
+MUTATIONS += [
+    dict(id="C12-repair-missing-blob-not-flagged", prop="C12", file=RSNF, old="                        || {\n                            file_changed = true;\n                        },", new="                        || {\n                            file_changed = new_content.is_empty();\n                        },"),
+    dict(id="C12-repair-keeps-missing-blob", prop="C12", file=RSNF, old="                        || {\n                            file_changed = true;\n                        },", new="                        || {\n                            file_changed = true;\n                            new_content.push(blob);\n                        },"),
+    dict(id="C12-repair-unchanged-file-renamed", prop="C12", file=RSNF, old="                if file_changed {\n                    warn!(\"file {}: contents are missing\", node.name);\n                    node.name += &self.opts.suffix;", new="                if file_changed || new_size != node.meta.size {\n                    warn!(\"file {}: contents are missing\", node.name);\n                    node.name += &self.opts.suffix;"),
+    dict(id="C12-rewrite-excluded-dir-kept", prop="C12", file=RWTF, old="        if let Match::Ignore(_) = self.overrides.matched(path, node.is_dir()) {\n            NodeAction::Removed", new="        if let Match::Ignore(_) = self.overrides.matched(path, false) {\n            NodeAction::Removed"),
+    dict(id="C12-rewrite-change-flag-lost", prop="C12", file=RWTF, old="                NodeAction::Node(node, changed)", new="                NodeAction::Node(node, self.all_trees)"),
+    dict(id="C12-modify-saves-unchanged-tree", prop="C12", file=MODF, old="        let new_id = if changed {\n            let new_id = self.save_tree(&new_tree)?;", new="        let new_id = if changed || !self.dry_run {\n            let new_id = self.save_tree(&new_tree)?;"),
+]
+
 HARMLESS = [
     dict(id="H-C05-trees-symlink-continue", prop="C05", file=CK, old="        for node in tree.nodes {\n            match node.node_type {", new="        for node in tree.nodes {\n            if node.node_type == NodeType::Symlink {\n                continue;\n            }\n            match node.node_type {"),
 ]
